@@ -30,6 +30,8 @@ func longCases(tier string) []longCase {
 	return []longCase{
 		{"next-from-function", `function f() { next } { f() } END { print "END", NR }`, n1, 0, fmt.Sprintf("END %d\n", n1)},
 		{"next-from-nested-function", `function g() { f() } function f() { next } NR % 2 { g() } { c++ } END { print NR, c }`, n2, 0, fmt.Sprintf("%d %d\n", n2, n2/2)},
+		{"next-from-function-in-pattern", `function f() { next } NR % 2 && f() { bad++ } { c++ } END { print NR, c, bad + 0 }`, n2, 0, fmt.Sprintf("%d %d 0\n", n2, n2/2)},
+		{"nextfile-from-function-in-range-pattern", `function f() { nextfile } FNR == 2 && f(), 0 { bad++ } { n++ } END { print n, NR, bad + 0 }`, 0, nf, fmt.Sprintf("%d %d 0\n", nf, 2*nf)},
 		{"next-from-function-in-loop", `function f(k) { if (k == 2) next; return k } { for (i = 0; i < 5; i++) s += f(i) } END { print NR, s }`, n1, 0, fmt.Sprintf("%d %d\n", n1, n1)},
 		{"nextfile-from-nested-function", `function outer() { inner() } function inner() { nextfile } { n++; outer() } END { print n, NR }`, 0, nf, fmt.Sprintf("%d %d\n", nf, nf)},
 		{"return-deep-every-record", `function r(d) { if (d > 0) return r(d - 1); return 1 } { t += r(20) } END { print NR, t }`, n1, 0, fmt.Sprintf("%d %d\n", n1, n1)},
